@@ -32,6 +32,22 @@ func (c *Check) c07H() {
 	}
 
 	c.factorListFilledPerColumn("C07-R11")
+	// with -diff_base the total and its mean divisor are taken from the same samples (shared with C04-R6)
+	c.relabel(c.totalAndDivisorTogether, "C04-R6", "C07-R12", nil)
+	{
+		var fns []*ssa.Function
+		forAllPkgFuncs(p, "profile", func(f *ssa.Function) {
+			if f.Parent() == nil && strings.HasSuffix(p.Fset.Position(f.Pos()).Filename, "/merge.go") {
+				fns = append(fns, f)
+			}
+		})
+		forAllPkgFuncs(p, "internal/measurement", func(f *ssa.Function) {
+			if f.Parent() == nil {
+				fns = append(fns, f)
+			}
+		})
+		c.latchedFlagNotOverwritten("C07-R13", fns...)
+	}
 	sp := c.anchorFn("C07-R9", "internal/measurement", "ScaleProfiles")
 	scale := p.Func("internal/measurement", "Scale")
 	if sp == nil || scale == nil {
